@@ -386,37 +386,67 @@ def provisional_publications(repo):
     to another thread between the two assignments)."""
     from collections import Counter
 
-    def counts(stmts):
-        total = Counter()
+    def cmax(a, b):
+        if a is None:
+            return b
+        if b is None:
+            return a
+        return Counter({k: max(a.get(k, 0), b.get(k, 0)) for k in set(a) | set(b)})
+
+    def cadd(a, b):
+        return Counter({k: a.get(k, 0) + b.get(k, 0) for k in set(a) | set(b)})
+
+    def step(st):
+        """(assignments on the paths that fall through, or None when none does; on the paths that return / raise inside, or None)"""
+        if isinstance(st, (ast.Assign, ast.AugAssign, ast.AnnAssign)):
+            c = Counter()
+            tg = st.targets if isinstance(st, ast.Assign) else [st.target]
+            for t in tg:
+                for n in (t.elts if isinstance(t, (ast.Tuple, ast.List)) else [t]):
+                    if isinstance(n, ast.Attribute) and isinstance(n.value, ast.Name) and n.value.id == 'self':
+                        c[n.attr] += 1
+            return c, None
+        if isinstance(st, (ast.Return, ast.Raise)):
+            return None, Counter()
+        if isinstance(st, ast.If):
+            f1, t1 = analyse(st.body)
+            f2, t2 = analyse(st.orelse)
+            return cmax(f1, f2), cmax(t1, t2)
+        if isinstance(st, (ast.For, ast.While)):
+            f, t = analyse(st.body)
+            f = f if f is not None else Counter()
+            return cadd(f, f), (cadd(f, t) if t is not None else None)      # a loop body may run twice
+        if isinstance(st, ast.Try):
+            f, t = analyse(st.body)
+            for h in st.handlers:
+                fh, th = analyse(h.body)
+                f, t = cmax(f, fh), cmax(t, th)
+            fo, to = analyse(st.orelse)
+            if fo is not None and f is not None:
+                f = cadd(f, fo)
+            t = cmax(t, to)
+            ff, tf = analyse(st.finalbody)
+            if ff is not None and f is not None:
+                f = cadd(f, ff)
+            return f, t
+        if isinstance(st, ast.With):
+            return analyse(st.body)
+        return Counter(), None
+
+    def analyse(stmts):
+        cur, term = Counter(), None
         for st in stmts:
-            if isinstance(st, (ast.Assign, ast.AugAssign, ast.AnnAssign)):
-                tg = st.targets if isinstance(st, ast.Assign) else [st.target]
-                for t in tg:
-                    for n in (t.elts if isinstance(t, (ast.Tuple, ast.List)) else [t]):
-                        if isinstance(n, ast.Attribute) and isinstance(n.value, ast.Name) and n.value.id == 'self':
-                            total[n.attr] += 1
-            elif isinstance(st, ast.If):
-                a, b = counts(st.body), counts(st.orelse)
-                for k in set(a) | set(b):
-                    total[k] += max(a.get(k, 0), b.get(k, 0))
-            elif isinstance(st, (ast.For, ast.While)):
-                a = counts(st.body)
-                for k in a:
-                    total[k] += 2 * a[k]
-            elif isinstance(st, ast.Try):
-                a = counts(st.body)
-                hs = [counts(h.body) for h in st.handlers] + [counts(st.orelse)]
-                keys = set(a)
-                for h in hs:
-                    keys |= set(h)
-                for k in keys:
-                    total[k] += max([a.get(k, 0)] + [h.get(k, 0) for h in hs])
-                for k, v in counts(st.finalbody).items():
-                    total[k] += v
-            elif isinstance(st, ast.With):
-                for k, v in counts(st.body).items():
-                    total[k] += v
-        return total
+            f, t = step(st)
+            if t is not None:
+                term = cmax(term, cadd(cur, t))
+            if f is None:
+                return None, term
+            cur = cadd(cur, f)
+        return cur, term
+
+    def counts(stmts):
+        f, t = analyse(stmts)
+        return cmax(f, t) or Counter()
 
     out = []
     for rel, cname in SHARED_OBJECT_CLASSES:
